@@ -45,7 +45,7 @@ def variant_names(pat, enum):
 def run(F, R, tier):
     # ---------------- C10-a ------------------------------------------------
     tf = F.body(T + "transform_fn")
-    clears = [n for n in tf["_nodes"] if n.get("k") == "MethodCall" and n["name"] == "clear" and peel(n["recv"]).get("field") == "stmts"]
+    clears = [n for n in tf["_nodes"] if n.get("k") == "MethodCall" and n["name"] == "clear" and field_of(n["recv"]) == "stmts"]
     if R.ob("C10-a", "transform_fn clears the body statements", len(clears) == 1, "transform_fn no longer calls body.stmts.clear()", tf["file"]):
         c = clears[0]
         g = guards_at(F, c)
@@ -58,12 +58,12 @@ def run(F, R, tier):
         ok = amb is not None and all((not x.pol and peel(x.node).get("lid") == amb) for x in conds) and len(pats) == 1 and mentions_field(pats[0].scrut, "body")
         R.ob("C10-a", "the body is cleared whenever the function is not ambient and has a body", ok,
              "body.stmts.clear() is additionally guarded by %s: some function bodies survive into the output" % [x.text()[:50] for x in g], where(c))
-        pushes = [n for n in tf["_nodes"] if n.get("k") == "MethodCall" and n["name"] in ("push", "insert", "extend") and peel(n["recv"]).get("field") == "stmts"]
+        pushes = [n for n in tf["_nodes"] if n.get("k") == "MethodCall" and n["name"] in ("push", "insert", "extend") and field_of(n["recv"]) == "stmts"]
         for p in pushes:
             ok = may_reach(F, c, p) and any((ctor_of(x) or "").endswith("::Stmt::Return") for x in walk(p["args"][0]))
             R.ob("C10-a", "only a placeholder return is put back into a cleared body", ok, "`%s` adds a non-return statement / precedes the clear" % expr_text(p)[:60], where(p))
         for fld, val in (("is_async", False), ("is_generator", False)):
-            a = [n for n in tf["_nodes"] if n["k"] == "Assign" and peel(n["l"]).get("field") == fld and peel(n["r"]).get("v") is val]
+            a = [n for n in tf["_nodes"] if n["k"] == "Assign" and field_of(n["l"]) == fld and peel(n["r"]).get("v") is val]
             fl = Flow(F, lambda n, a=a: n in a)
             fl.run(tf["body"]["value"], False)
             bad = []
@@ -75,7 +75,7 @@ def run(F, R, tier):
                     bad.append(node)
             R.ob("C10-a", "transform_fn resets %s on every non-ambient path" % fld, len(a) == 1 and not bad, "a path leaves %s set" % fld, tf["file"])
     tcm = F.body(T + "transform_class_member")
-    rm = [n for n in tcm["_nodes"] if n.get("k") == "MethodCall" and n["name"] == "retain_mut" and peel(n["recv"]).get("field") == "stmts"]
+    rm = [n for n in tcm["_nodes"] if n.get("k") == "MethodCall" and n["name"] == "retain_mut" and field_of(n["recv"]) == "stmts"]
     if R.ob("C10-a", "constructor bodies are filtered", len(rm) == 1, "constructor arm no longer filters body.stmts", tcm["file"]):
         clo = peel(rm[0]["args"][0])
         vals = []
@@ -109,7 +109,7 @@ def run(F, R, tier):
                 R.ob("C10-b", "Expr::%s is never leavable" % v, ok,
                      "Expr::%s can be left in the output (arm yields %s): executable logic would survive in an initialiser" % (v, [expr_text(x)[:30] for x in vals]), where(arm["body"]))
             for v in vs & {"TsAs", "TsTypeAssertion"}:
-                asg = [n for n in walk(arm["body"]) if n["k"] == "Assign" and peel(n["l"]).get("field") == "expr"]
+                asg = [n for n in walk(arm["body"]) if n["k"] == "Assign" and field_of(n["l"]) == "expr"]
                 R.ob("C10-b", "Expr::%s keeps only its type (expression replaced)" % v, len(asg) == 1 and any(callee_matches(x, ["obj_as_never_expr"]) for x in walk(asg[0]["r"])), "the asserted expression is left in place", where(arm["body"]))
             if "Fn" in vs:
                 R.ob("C10-b", "function expressions are transformed", any(callee_matches(n, [T + "transform_fn"]) for n in walk(arm["body"])), "Expr::Fn left untransformed", where(arm["body"]))
@@ -185,12 +185,12 @@ def run(F, R, tier):
                 if R.ob("C10-d", "%s: TypeScript-private members are special-cased" % sorted(vs)[0], len(priv) >= 1, "no `accessibility == Some(Private)` branch", where(arm["body"])):
                     th = priv[0]["then"]
                     R.ob("C10-d", "%s: private member is typed `any`" % sorted(vs)[0], any(callee_matches(n, ["any_type_ann"]) for n in walk(th)), "private branch does not use any_type_ann()", where(th))
-                    val_none = any((n["k"] == "Assign" and peel(n["l"]).get("field") == "value" and ctor_of(peel(n["r"])) == "std::option::Option::None") for n in walk(th)) or \
+                    val_none = any((n["k"] == "Assign" and field_of(n["l"]) == "value" and ctor_of(peel(n["r"])) == "std::option::Option::None") for n in walk(th)) or \
                         any(n.get("k") == "Struct" and any(f["name"] == "value" and ctor_of(peel(f["e"])) == "std::option::Option::None" for f in n["fields"]) for n in walk(th))
                     R.ob("C10-d", "%s: private member loses its value / body" % sorted(vs)[0], val_none, "private branch keeps the initialiser", where(th))
                     R.ob("C10-d", "%s: private branch returns early" % sorted(vs)[0], diverges(F, th), "private branch falls through into the public handling", where(th))
             if "ClassProp" in vs:
-                dc = [n for n in walk(arm["body"]) if n.get("k") == "MethodCall" and n["name"] == "clear" and peel(n["recv"]).get("field") == "decorators"]
+                dc = [n for n in walk(arm["body"]) if n.get("k") == "MethodCall" and n["name"] == "clear" and field_of(n["recv"]) == "decorators"]
                 bad, _ = must_pass(F, arm["body"], lambda n: n in dc, exit_kinds=("fallthrough", "return"))
                 R.ob("C10-e", "class property decorators are removed on every path", not bad, "a path through the ClassProp arm keeps decorators", where(arm["body"]))
         R.ob("C10-e", "every class member kind handled explicitly", not ca and {"PrivateMethod", "PrivateProp", "StaticBlock", "Constructor", "Method", "ClassProp", "AutoAccessor"} <= seen, "catch-all=%s seen=%s" % (ca, sorted(seen)), where(cm[0]))
@@ -210,9 +210,9 @@ def run(F, R, tier):
                 R.ob("C10-e", "synthesised %s has no decorators" % n["adt"].split("::")[-1], ok, "decorators: %s" % expr_text(d[0]), where(n), nontrivial=False)
     R.floor("C10-e synthesised members", n_lit, 6)
     tc = F.body(T + "transform_class")
-    dc = [n for n in tc["_nodes"] if n.get("k") == "MethodCall" and n["name"] == "clear" and peel(n["recv"]).get("field") == "decorators"]
+    dc = [n for n in tc["_nodes"] if n.get("k") == "MethodCall" and n["name"] == "clear" and field_of(n["recv"]) == "decorators"]
     R.ob("C10-e", "class decorators are removed", len(dc) == 1, "transform_class keeps n.decorators", tc["file"])
-    dc = [n for n in tf["_nodes"] if n.get("k") == "MethodCall" and n["name"] == "clear" and peel(n["recv"]).get("field") == "decorators"]
+    dc = [n for n in tf["_nodes"] if n.get("k") == "MethodCall" and n["name"] == "clear" and field_of(n["recv"]) == "decorators"]
     R.ob("C10-e", "function and parameter decorators are removed", len(dc) == 2, "transform_fn clears decorators at %d site(s)" % len(dc), tf["file"])
 
     # return-statement analysis: the whole analysis is only aborted once the verdict is final (Multiple)
@@ -233,7 +233,7 @@ def run(F, R, tier):
     # destructured parameters never keep their binding elements
     hp = F.body(T + "handle_param_pat")
     for fld in ("elems", "props"):
-        cl = [n for n in hp["_nodes"] if n.get("k") == "MethodCall" and n["name"] == "clear" and peel(n["recv"]).get("field") == fld]
+        cl = [n for n in hp["_nodes"] if n.get("k") == "MethodCall" and n["name"] == "clear" and field_of(n["recv"]) == fld]
         R.floor("C10-f clears of destructuring %s" % fld, len(cl), 1)
         for c_ in cl:
             # the clear must not be conditional within its match arm
@@ -274,7 +274,7 @@ def run(F, R, tier):
             if p is not None and p.get("k") == "If" and is_within(n, p["cond"]):
                 conds = []
                 split_cond(p["cond"], True, conds)
-                pos = any(x.kind == "cond" and x.node is n and x.pol for x in conds)
+                pos = any(x.holds(n) is True for x in conds)
                 region = p["then"] if pos else p.get("else")
             elif p is not None and p.get("k") == "LetStmt" and p["pat"].get("pk") == "bind":
                 local = p["pat"]["lid"]
